@@ -122,11 +122,18 @@ func (s *Service) Handle(ctx context.Context, conn net.Conn) error {
 
 	rcvLine := make(chan string)
 
+	// messages and lines of this connection only, so that events carry the
+	// address of the connection they arrived on
+	rcvMsg := make(chan Message)
+	done := make(chan struct{})
+
 	// Wait for a message and send it into the eventbus
 	go func() {
 		for {
 			select {
-			case message := <-s.receiveChan:
+			case <-done:
+				return
+			case message := <-rcvMsg:
 				header := []event.Option{}
 
 				for key, values := range message.Header {
@@ -166,7 +173,11 @@ func (s *Service) Handle(ctx context.Context, conn net.Conn) error {
 
 	//Create new smtp server connection
 	c := s.srv.newConn(conn, rcvLine)
+	c.deliver = func(msg Message) {
+		rcvMsg <- msg
+	}
 	// Start server loop
 	c.serve()
+	close(done)
 	return nil
 }
